@@ -32,7 +32,7 @@ def shape(x):
     return {k: shape(v) for k, v in x.items()}
 
 
-def registry_for(reg, opdefs=()):
+def registry_for(reg, opdefs=(), mono=None):
     from hugr import ext, tys
     r = ext.ExtensionRegistry()
     exts = {}
@@ -47,7 +47,8 @@ def registry_for(reg, opdefs=()):
         e = exts.get(en)
         if e is None:
             e = exts[en] = ext.Extension(en, ext.Version(0, 1, 0))
-        e.add_op_def(ext.OpDef(on, ext.OpDefSig(None, binary=True), description=desc))
+        msig = (mono or {}).get((en, on))
+        e.add_op_def(ext.OpDef(on, ext.OpDefSig(msig) if msig is not None else ext.OpDefSig(None, binary=True), description=desc))
     for e in exts.values():
         r.add_extension(e)
     return r
@@ -117,8 +118,57 @@ def run(ctx: Ctx) -> None:
         if n[0] < 1000:
             raise MachineryError(f"only {n[0]} pairs emitted")
         _hugr_level(ctx)
+        _registry_histories(ctx, wd, quick)
     finally:
         cleanup(wd)
+
+
+def _registry_histories(ctx: Ctx, wd, quick: bool) -> None:
+    """all histories (no state collapsing: a registry may cache) of adding definitions to ONE registry and resolving in between"""
+    from hugr import ext, tys
+    cfg = f"INIT Init\nNEXT Next\nCONSTANT MaxLen = {4 if quick else 5}\nPROPERTY Law\nACTION_CONSTRAINT Emit\nCHECK_DEADLOCK FALSE\n"
+    n = [0]
+
+    def sink(ln):
+        if not isinstance(ln, dict) or "hist" not in ln:
+            return
+        n[0] += 1
+        if quick and n[0] % 2:
+            return
+        ctx.evaluations += 1
+        hist = ln["hist"]
+        if any(e["a"] == "AddDef" for e in hist[:-1]) and sum(e["a"] == "Resolve" for e in hist) >= 2:
+            ctx.nontriv(hist)
+        reg = ext.ExtensionRegistry()
+        exts = {}
+        got = None
+        try:
+            for e in hist:
+                if e["a"] == "AddDef":
+                    b = e["bspec"]
+                    bound = ext.ExplicitBound(W._bound(b["bound"])) if b["b"] == "Explicit" else ext.FromParamsBound(list(b["indices"]))
+                    td = ext.TypeDef(e["id"], "", [tys.TypeTypeParam(tys.TypeBound.Any)] if b["b"] == "FromParams" else [], bound)
+                    if e["ext"] in exts:
+                        exts[e["ext"]].add_type_def(td)              # the extension is already registered
+                    else:
+                        x = exts[e["ext"]] = ext.Extension(e["ext"], ext.Version(0, 1, 0))
+                        x.add_type_def(td)
+                        reg.add_extension(x)
+                else:
+                    got = W.build_type(W.from_tla(e["t"])).resolve(reg)
+            exp = shape(W.from_tla(ln["res"]))
+            obs = shape(W.proj_type(got))
+            if W.canon(exp) != W.canon(obs):
+                ctx.violation({"t": "history", "what": "resolution after the registry changed", "nreg": sum(e["a"] == "AddDef" for e in hist)},
+                              {"hist": hist}, exp, obs, clause="RegistryHist!ResolveT = Resolve(t, current registry)")
+        except MachineryError:
+            raise
+        except Exception as ex:  # noqa: BLE001
+            ctx.violation({"t": "history", "what": f"exception {type(ex).__name__}"}, {"hist": hist}, "no exception", repr(ex)[:300], clause="implementation raised")
+    res = run_tlc("RegistryHist", cfg, wd, workers=1, line_sink=sink, heap="4g", timeout=1500)
+    tlc_must_hold(ctx, "M+S2C registry histories", res, "RegistryHist")
+    if n[0] < 200:
+        raise MachineryError(f"only {n[0]} registry histories emitted")
 
 
 def _hugr_level(ctx: Ctx) -> None:
@@ -130,7 +180,9 @@ def _hugr_level(ctx: Ctx) -> None:
     from hugr.hugr import Hugr
     lin = tys.Opaque("Lin", tys.TypeBound.Any, [], "e1")
     pa = tys.Opaque("P", tys.TypeBound.Any, [lin.type_arg()], "e1")
-    for with_types, with_op_e1, with_op_e3 in itertools.product([False, True], repeat=3):
+    for with_types, with_op_e1, with_op_e3, mono_sig in itertools.product([False, True], repeat=4):
+        if mono_sig and not with_op_e1:
+            continue
         ctx.evaluations += 1
         ctx.nontriv(f"hugr:{with_types}:{with_op_e1}:{with_op_e3}")
         m = Module()
@@ -143,9 +195,10 @@ def _hugr_level(ctx: Ctx) -> None:
         model0 = h0.to_model()
         reg = registry_for(([{"ext": "e1", "id": "Lin", "bspec": {"b": "Explicit", "bound": "A"}},
                              {"ext": "e1", "id": "P", "bspec": {"b": "FromParams", "indices": [0]}}] if with_types else []),
-                           ([("e1", "opn", "definition desc")] if with_op_e1 else []) + ([("e3", "unrelated", "x")] if with_op_e3 else []))
+                           ([("e1", "opn", "definition desc")] if with_op_e1 else []) + ([("e3", "unrelated", "x")] if with_op_e3 else []),
+                           mono={("e1", "opn"): tys.FunctionType([lin], [pa])} if mono_sig else {})
         sig = {"t": "hugr", "nreg": int(with_types) + int(with_op_e1) + int(with_op_e3)}
-        case = {"registry": {"types": with_types, "e1.opn": with_op_e1, "e3.unrelated": with_op_e3}}
+        case = {"registry": {"types": with_types, "e1.opn": with_op_e1, "e3.unrelated": with_op_e3, "opn has a monomorphic signature": mono_sig}}
         try:
             h0.resolve_extensions(reg)
             kinds = [type(h0[n].op).__name__ for n in h0 if isinstance(h0[n].op, (ops.Custom, ops.ExtOp))]
